@@ -249,14 +249,24 @@ proof fn lemma_sel_range(attrs: Seq<StunAttribute>, n: int, t: u16)
 pub assume_specification<T> [std::option::Option::<T>::or] (a: Option<T>, b: Option<T>) -> (r: Option<T>)
     where T: std::marker::Destruct,
     ensures r == (if a is Some { a } else { b });
-// An `Unknown` attribute is what the decoder builds when the registry has no handler for the type, so its type is
-// none of the registered ones (type invariant of decoder-produced values; trusted here)
-pub proof fn axiom_unknown_not_registered(u: Unknown)
-    ensures u.uty() != TY_MESSAGEINTEGRITY, u.uty() != TY_MESSAGEINTEGRITYSHA256, u.uty() != TY_FINGERPRINT,
-        u.uty() != TY_ERRORCODE, u.uty() != TY_REALM, u.uty() != TY_NONCE, u.uty() != TY_PASSWORDALGORITHMS,
-        u.uty() != TY_PASSWORDALGORITHM, u.uty() != TY_USERNAME, u.uty() != TY_USERHASH,
-{ admit(); }
+// An `Unknown` attribute is what MessageDecoder::decode builds when the registry has no handler for the type code, so in a
+// *decoded* message its type is none of the registered ones. This is a fact about decoder output, not about every value of
+// the type (Unknown::new accepts any code): it is carried as the precondition `decoder_made()` of everything that receives a
+// message, discharged by the client from the decoder's contract (theorem_unknown_unregistered, unit rt, over the contract
+// of MessageDecoder::decode proved in unit dec and the per-kind decoders proved in unit attrs).
+pub open spec fn stun_registered(t: u16) -> bool {
+    t == TY_ALTERNATESERVER || t == TY_ERRORCODE || t == TY_FINGERPRINT || t == TY_MAPPEDADDRESS || t == TY_MESSAGEINTEGRITY
+    || t == TY_MESSAGEINTEGRITYSHA256 || t == TY_NONCE || t == TY_PASSWORDALGORITHM || t == TY_PASSWORDALGORITHMS || t == TY_REALM
+    || t == TY_SOFTWARE || t == TY_UNKNOWNATTRIBUTES || t == TY_USERHASH || t == TY_USERNAME || t == TY_XORMAPPEDADDRESS
+}
+pub open spec fn unknown_ok(a: StunAttribute) -> bool { a is Unknown ==> !stun_registered(a.ty()) }
+impl StunMessage {
+    pub open spec fn decoder_made(&self) -> bool {
+        forall|k: int| 0 <= k < self.attrs().len() ==> unknown_ok(#[trigger] self.attrs()[k])
+    }
+}
 pub proof fn lemma_variant_ty(a: StunAttribute)
+    requires unknown_ok(a),
     ensures a is MessageIntegrity <==> a.ty() == TY_MESSAGEINTEGRITY,
         a is MessageIntegritySha256 <==> a.ty() == TY_MESSAGEINTEGRITYSHA256,
         a is Fingerprint <==> a.ty() == TY_FINGERPRINT,
@@ -265,7 +275,6 @@ pub proof fn lemma_variant_ty(a: StunAttribute)
         a is Nonce <==> a.ty() == TY_NONCE,
         a is PasswordAlgorithms <==> a.ty() == TY_PASSWORDALGORITHMS,
 {
-    if let StunAttribute::Unknown(u) = a { axiom_unknown_not_registered(u); }
 }
 pub assume_specification<T, U, D: FnOnce() -> U, F: FnOnce(T) -> U> [std::option::Option::<T>::map_or_else] (o: Option<T>, default: D, f: F) -> (r: U)
     requires o is None ==> call_requires(default, ()), o is Some ==> call_requires(f, (o->Some_0,)),
@@ -346,6 +355,7 @@ impl ShortTermCredentialClient {
         lemma_sel_skip(attrs, p0, n, TY_MESSAGEINTEGRITYSHA256);
     }
 //@spec
+    requires msg.decoder_made(),
     ensures
         final(self).user_name == old(self).user_name, final(self).key == old(self).key,
         final(self).validator.is_reliable == old(self).validator.is_reliable,
@@ -367,6 +377,7 @@ impl ShortTermCredentialClient {
 //@item stun_agent :: mod st_cred_mech > impl ShortTermCredentialClient > fn recv_message
 //@tags C07 C17 C13
 //@spec
+    requires msg.decoder_made(),
     ensures
         final(self).user_name == old(self).user_name, final(self).key == old(self).key,
         final(self).validator.is_reliable == old(self).validator.is_reliable,
@@ -935,6 +946,7 @@ impl LongTermCredentialClient {
         lemma_sel_skip(attrs, p0, n, TY_MESSAGEINTEGRITYSHA256);
     }
 //@spec
+    requires msg.decoder_made(),
     ensures final(self).same_ident(old(self)), final(self).params == old(self).params, final(self).state == old(self).state,
         old(self).params is None ==> r == Err::<(), IntegrityError>(IntegrityError::Discarded) && *final(self) == *old(self),
         old(self).params is Some ==> {
@@ -1000,7 +1012,7 @@ impl LongTermCredentialClient {
         lemma_sel_skip(attrs, p0, n, TY_MESSAGEINTEGRITYSHA256);
     }
 //@spec
-    requires old(self).wf(),
+    requires old(self).wf(), msg.decoder_made(),
     ensures final(self).same_ident(old(self)), final(self).wf(),
         // C17: anything that is not a retry instruction leaves the credentials and the state alone
         (r is Ok || !(r->Err_0 is Retry)) ==> final(self).params == old(self).params && final(self).state == old(self).state,
@@ -1040,7 +1052,7 @@ pub fn new(user_name: UserName, password: String, is_reliable: bool) -> (r: Self
 //@item stun_agent :: mod lt_cred_mech > impl LongTermCredentialClient > fn recv_message
 //@tags C08 C17 C03 C13
 //@spec
-    requires old(self).wf(),
+    requires old(self).wf(), msg.decoder_made(),
     ensures final(self).same_ident(old(self)), final(self).wf(),
         // requests and indications are refused
         (msg.sclass() is Request || msg.sclass() is Indication) ==> r == Err::<(), IntegrityError>(IntegrityError::Discarded) && *final(self) == *old(self),
@@ -1097,7 +1109,7 @@ impl CredentialMechanismClient {
 //@item stun_agent :: mod client > impl CredentialMechanismClient > fn recv_message
 //@tags C17 C07 C08 C05 C13
 //@spec
-    requires old(self).wf(),
+    requires old(self).wf(), message.decoder_made(),
     ensures final(self).wf(),
             // a message that is to be ignored changes nothing but, for a response on unreliable transport, the marker
             (r is Err && r->Err_0 is Discarded) ==> final(self).st() == old(self).st()
